@@ -46,7 +46,7 @@ def query(shape, fns, grouped, n, pcts):
             sqlx = FNS[fn]
         elif fn == "percentile":
             p = pcts[k % len(pcts)]
-            sqlx = FNS[fn] % (argtxt, "%.3f" % (p / 1000.0))
+            sqlx = FNS[fn] % (argtxt, ("%d" % (p // 1000)) if (p in (0, 1000) and k % 2 == 0) else "%.3f" % (p / 1000.0))   # 0 / 1 also written as integer literals
         elif fn == "nth_value":
             p = 2
             sqlx = FNS[fn] % (argtxt, p)
@@ -176,7 +176,7 @@ def twocol_query(rng, n):
                 rid += 1
                 r = {"id": rid, "g": g}
                 for c in ("v", "u"):
-                    x = rng.choice([None, MISSING, -3, 0, 2, 7, 7])
+                    x = rng.choice([None, MISSING, -3, 0, 2, 7, 7, "N/A"])
                     if x != MISSING: r[c] = x
                 rows.append(r)
     sel = ", ".join(items)
@@ -233,12 +233,14 @@ def run(tier):
         shape = rng.choice(list(SHAPES))
         fns = rng.choice(fnsets)
         vals = [rng.choice([None, MISSING, -3, -1, 0, 2, 2, 5, 7, 11, 20]) for _ in range(L * 3)]
+        if shape == "col" and rng.random() < 0.4:      # a text that is no number among the inputs: unusable for the numeric aggregates, a value for count / collect / first_value
+            vals = [("N/A" if rng.random() < 0.2 else v) for v in vals]
         half = rng.random() < 0.3
         sql, meta = query(shape, fns, False, L, [rng.choice([0, 100, 250, 500, 750, 950, 1000])])
         rows = []
         for i, v in enumerate(vals):
             r = mkrow(i + 1, v, shape, None, False, rng)
-            if half and v not in (None, MISSING) and shape == "col" and rng.random() < 0.5:
+            if half and v not in (None, MISSING, "N/A") and shape == "col" and rng.random() < 0.5:
                 r["v"] = {"$f": v + 0.5}
             rows.append(r)
         scen.append({"meta": meta, "sql": sql, "rows": rows})
